@@ -13,7 +13,7 @@ Proof.
       let E := fresh "E" in
       destruct (str_eqb f s) eqn:E;
       [ apply str_eqb_eq in E; subst f; intros _;
-        first [ exact step_arrayNew | exact step_arrayCopy | exact step_arrayLength | exact step_arrayGet | exact step_arraySet
+        first [ exact step_arrayNew | exact step_arrayNewSize | exact step_arrayCopy | exact step_arrayLength | exact step_arrayGet | exact step_arraySet
               | exact step_arrayDelete | exact step_arrayPush | exact step_arrayPop | exact step_arrayShift | exact step_arrayExtend
               | exact step_arraySlice | exact step_objectNew | exact step_objectCopy | exact step_objectKeys | exact step_objectGet
               | exact step_objectHas | exact step_objectSet | exact step_objectDelete | exact step_objectAssign ]
